@@ -247,6 +247,7 @@ type Tokenizer struct {
 	input      []byte              // Input SQL bytes (zero-copy reference)
 	pos        Position            // Current scanning position
 	lineStart  Position            // Start of current line
+	tokenStart Position            // Start of the token being read (after any skipped comments)
 	lineStarts []int               // Byte offsets of line starts (for position tracking)
 	line       int                 // Current line number (1-based)
 	keywords   *keywords.Keywords  // Keyword classifier for token type determination
@@ -463,8 +464,6 @@ func (t *Tokenizer) Tokenize(input []byte) ([]models.TokenWithSpan, error) {
 				return
 			}
 
-			startPos := t.pos
-
 			token, err := t.nextToken()
 			if err != nil {
 				// nextToken returns structured errors, pass through directly
@@ -480,7 +479,7 @@ func (t *Tokenizer) Tokenize(input []byte) ([]models.TokenWithSpan, error) {
 
 			tw := models.TokenWithSpan{
 				Token: token,
-				Start: t.toSQLPosition(startPos),
+				Start: t.toSQLPosition(t.tokenStart),
 				End:   t.getCurrentPosition(),
 			}
 			if t.logger != nil && t.logger.Enabled(context.Background(), slog.LevelDebug) {
@@ -609,8 +608,6 @@ func (t *Tokenizer) TokenizeContext(ctx context.Context, input []byte) ([]models
 				return
 			}
 
-			startPos := t.pos
-
 			token, err := t.nextToken()
 			if err != nil {
 				// nextToken returns structured errors, pass through directly
@@ -626,7 +623,7 @@ func (t *Tokenizer) TokenizeContext(ctx context.Context, input []byte) ([]models
 
 			tw := models.TokenWithSpan{
 				Token: token,
-				Start: t.toSQLPosition(startPos),
+				Start: t.toSQLPosition(t.tokenStart),
 				End:   t.getCurrentPosition(),
 			}
 			if t.logger != nil && t.logger.Enabled(context.Background(), slog.LevelDebug) {
@@ -694,6 +691,9 @@ func (t *Tokenizer) skipWhitespace() {
 
 // nextToken picks out the next token from the input
 func (t *Tokenizer) nextToken() (models.Token, error) {
+	// Comments are skipped by re-entering nextToken, so this records the start
+	// of the token that is finally returned, not of a comment before it.
+	t.tokenStart = t.pos
 	if t.pos.Index >= len(t.input) {
 		return models.Token{Type: models.TokenTypeEOF}, nil
 	}
